@@ -45,6 +45,9 @@ func GenGeom(r *gen.R, coord func(*gen.R) float64) (geom.Geom, string, bool) {
 	ks := []int{gen.KPoint, gen.KMultiPoint, gen.KLineString, gen.KMultiLineString, gen.KPolygon, gen.KMultiPolygon}
 	k := ks[r.Intn(len(ks))]
 	o := &gen.GeomOpts{Coord: coord, MaxMembers: 5, MaxVerts: 6, MinVerts: 0, MinMembers: 1}
+	if r.Chance(0.02) {
+		o.MaxVerts = 1500 // large coordinate arrays
+	}
 	g := gen.RandGeomKind(r, o, k, 0)
 	pt := func() geom.Point { return geom.Point{X: coord(r), Y: coord(r)} }
 	emptyLater := false
